@@ -63,6 +63,22 @@ theorem C01_update_mask_options (ops : MsgOps M K) (cat : K → K → K) (pre po
     rw [foldl_updateMask ops cat post hpost]
     exact hnone
 
+/-- The function-valued settings (expected check, before / after interceptor, created callback, id
+callback): the LAST option of the kind decides, a nil function included — `WithCreatedCallback(nil)` after
+a callback switches it off again, a callback after a nil switches it on —, whatever came before; with no
+option of the kind the setting is off. -/
+theorem C01_function_options_last_wins (ops : MsgOps M K) (cat : K → K → K) (k : FnSetting)
+    (pre post : List (WOpt M K)) (hpost : ∀ o ∈ post, o.setsFn ≠ some k) :
+    (∀ o, o.setsFn = some k →
+      sameFn k (computeWriteConfig ops cat (pre ++ o :: post)) (applyW ops cat {} o)) ∧
+    sameFn k (computeWriteConfig ops cat post) {} := by
+  constructor
+  · intro o ho
+    unfold computeWriteConfig
+    rw [List.foldl_append, List.foldl_cons]
+    exact sameFn_trans k (foldl_keeps_fn ops cat k post hpost _) (applyW_sets_fn ops cat k _ _ o ho)
+  · exact foldl_keeps_fn ops cat k post hpost _
+
 /-- Read options are last-wins, independently for the mask and the include predicate. -/
 theorem C01_read_options_last_wins (pre post : List (ROpt M K)) :
     (∀ m, (∀ o ∈ post, o.setsReadMask = false) →
@@ -432,6 +448,19 @@ example :
     (computeWriteConfig flatOps (· ++ ·) ([.updateMask (some [.a]), .moreUpdateMask [.s]] : List (WOpt Msg Mask))).updateMask = some [.a, .s] ∧
     (computeWriteConfig flatOps (· ++ ·) ([.moreUpdateMask [.s]] : List (WOpt Msg Mask))).updateMask = none ∧
     (computeWriteConfig flatOps (· ++ ·) ([.allowMissing true, .allowMissing false] : List (WOpt Msg Mask))).allowMissing = false := by
+  decide
+
+def oCfg0 : Cfg Msg Mask (List Nat) := { ops := flatOps, gen := flatGen }
+
+/-- callbacks can be switched off again and on again; a check replaced by nil no longer fails the call -/
+example :
+    (computeWriteConfig flatOps (· ++ ·) ([.createdCallback, .noCreatedCallback] : List (WOpt Msg Mask))).createdCb = false ∧
+    (computeWriteConfig flatOps (· ++ ·) ([.noIDCallback, .idCallback, .writeTime 3] : List (WOpt Msg Mask))).idCb = true ∧
+    (computeWriteConfig flatOps (· ++ ·) ([.expectedCheck (fun _ => some .aborted), .noExpectedCheck] : List (WOpt Msg Mask))).expectedCheck.isNone = true ∧
+    (Coll.addO (· ++ ·) oCfg0 (Coll.init oCfg0 [] []) "a" { a := 1, s := "", c := none }
+      [.expectedCheck (fun _ => some .aborted), .createdCallback, .noExpectedCheck]).1.err = none ∧
+    (Coll.addO (· ++ ·) oCfg0 (Coll.init oCfg0 [] []) "a" { a := 1, s := "", c := none }
+      [.expectedCheck (fun _ => some .aborted), .createdCallback, .noExpectedCheck]).1.createdCalls = 1 := by
   decide
 
 def oCfg : Cfg Msg Mask (List Nat) := { ops := flatOps, gen := flatGen, icpt := some lowerStr }
